@@ -65,6 +65,9 @@ class Unit:
     pregen: Optional[str] = None      # name of a per-run header generator in vlib/pregen.py
     probes: Optional[List[str]] = None  # if set: exactly these [VACUITY] probes (substring match) must be reachable
     replace_calls: List[Tuple[str, str]] = field(default_factory=list)  # goto-instrument --replace-calls f:g
+    autostub: bool = False            # two-pass build: generate logging stubs for every function without a C body
+    loopgen: Optional[str] = None     # per-run generator (vlib/loopgen.py) of a --loop-contracts-file for code we may not edit; non-DFCC units:
+                                      # goto-instrument --remove-function-pointers, then --loop-contracts-file F --apply-loop-contracts
 
 
 @dataclass
@@ -79,6 +82,7 @@ class UnitResult:
     cmds: List[str] = field(default_factory=list)
     log: str = ""
     backend: str = ""
+    autostubs: List[str] = field(default_factory=list)
 
 
 def _limits(mem_gb):
@@ -157,6 +161,11 @@ def select(u: Unit, pid: str, ob: dict) -> bool:
     if tags:
         return pid in tags
     cls = ob["class"]
+    # obligations generated from a loop contract carry the argument of every property the unit decides:
+    # an invariant that is not established / preserved, a variant that does not decrease or a write outside the loop's
+    # frame leaves the tagged conclusions without support, so they count for each of them
+    if (u.loopgen or u.loops) and re.match(r"Check (that loop invariant|loop invariant|decreases|variant|that .* is assignable|invariant)", ob["description"]):
+        return True
     if sel == "all":
         return True
     if sel == "tag":
@@ -187,6 +196,28 @@ def build_and_check(u: Unit, workdir: str, trace: bool = False, only_props: Opti
             r.reason = "pregen %s failed: %r" % (u.pregen, e)
             r.wall_s = time.time() - t0
             return r
+    if u.autostub:
+        from vlib import stubgen as _sg
+        p1 = os.path.join(workdir, "pass1.gb")
+        cc1 = ["goto-cc", "-std=c99"] + defs + ["-DSTUB_PASS1"] + BASE_INCS + ["--function", u.entry] + srcs + ["-o", p1]
+        r.cmds.append(" ".join(cc1))
+        rc, out, err, _ = sh(cc1, 600, 8)
+        r.log += out + err
+        if rc != 0:
+            r.reason = "goto-cc (stub pass 1) failed: " + (out + err)[-2000:]
+            r.wall_s = time.time() - t0
+            return r
+        funcs = _sg.undefined_functions(p1)
+        text, names, info, problems = _sg.gen(funcs)
+        if problems:
+            r.reason = "stub generation: " + "; ".join(problems[:8])
+            r.wall_s = time.time() - t0
+            return r
+        sf = os.path.join(workdir, "autostubs.h")
+        with open(sf, "w") as fh:
+            fh.write(text)
+        defs = defs + ['-DAUTOSTUBS_FILE="%s"' % sf]
+        r.autostubs = names
     cc = ["goto-cc", "-std=c99"] + defs + BASE_INCS + ["--function", u.entry] + srcs + ["-o", a]
     r.cmds.append(" ".join(cc))
     rc, out, err, _ = sh(cc, 600, 8)
@@ -238,6 +269,33 @@ def build_and_check(u: Unit, workdir: str, trace: bool = False, only_props: Opti
             r.wall_s = time.time() - t0
             return r
         a = al
+    if u.loopgen and not u.dfcc:
+        from vlib import loopgen as _lg
+        afp = os.path.join(workdir, "afp.gb")
+        cmd = ["goto-instrument", "--remove-function-pointers", a, afp]
+        r.cmds.append(" ".join(cmd))
+        rc, out, err, _ = sh(cmd, 600, 8)
+        r.log += out + err
+        if rc != 0:
+            r.reason = "remove-function-pointers failed: " + (out + err)[-1500:]
+            r.wall_s = time.time() - t0
+            return r
+        try:
+            lj = _lg.GENERATORS[u.loopgen](afp, workdir, os.path.join(VERIF, "harness", u.harness))
+        except Exception as e:
+            r.reason = "loop-contract generation %s failed (loop or local renamed/removed?): %r" % (u.loopgen, e)
+            r.wall_s = time.time() - t0
+            return r
+        alc = os.path.join(workdir, "alc.gb")
+        cmd = ["goto-instrument", "--loop-contracts-file", lj, "--apply-loop-contracts", afp, alc]
+        r.cmds.append(" ".join(cmd))
+        rc, out, err, _ = sh(cmd, 900, u.mem_gb)
+        r.log += out + err
+        if rc != 0 or not os.path.exists(alc):
+            r.reason = "apply-loop-contracts failed (rc=%d): %s" % (rc, (out + err)[-2500:])
+            r.wall_s = time.time() - t0
+            return r
+        a = alc
     if u.dfcc:
         gi = ["goto-instrument", "--dfcc", u.entry]
         for f, c in u.enforce:
@@ -335,6 +393,11 @@ def build_and_check(u: Unit, workdir: str, trace: bool = False, only_props: Opti
     r.covers = vac
     r.obligations = [o for o in r.obligations if "[VACUITY]" not in o["description"]]
     r.obligations = [o for o in r.obligations if not (o["class"] == "unwind" and False)]
+    infra = [o for o in r.obligations if "[INFRA]" in o["description"] and o["status"] == "FAILURE"]
+    if infra:
+        r.reason = "infrastructure obligation failed (not a property verdict): " + "; ".join(o["description"][:120] for o in infra[:3])
+        return r
+    r.obligations = [o for o in r.obligations if "[INFRA]" not in o["description"]]
     nobody = [o for o in r.obligations if "undefined function should be unreachable" in o["description"]
               and o["status"] == "FAILURE"]
     if nobody:
@@ -342,6 +405,11 @@ def build_and_check(u: Unit, workdir: str, trace: bool = False, only_props: Opti
             sorted(set(o["name"].split(".")[0] for o in nobody)))
         return r
     bad = [o for o in r.obligations if o["status"] not in ("SUCCESS", "FAILURE")]
+    if bad and any(o["status"] == "FAILURE" for o in r.obligations):
+        # the verifier produced a counterexample for some obligations and left others open (UNKNOWN):
+        # a refuted obligation is a verdict on its own; the open ones are dropped from this run's count
+        r.obligations = [o for o in r.obligations if o["status"] in ("SUCCESS", "FAILURE")]
+        bad = []
     if bad:
         r.reason = "undecided obligations: " + ", ".join(o["name"] + "=" + o["status"] for o in bad[:5])
         return r
